@@ -1361,6 +1361,12 @@ class Emitter:
             return self.own_call(f, None, args, e)
         if rn == 'move' or rn == 'forward':
             return self.expr(args[0])
+        if rn in ('max', 'min') and len(args) == 2:
+            # std::min / std::max of two values (by-value stub; the reference result is only read)
+            ct = self.ctype(e)
+            if ct not in ('double', 'uint64_t', 'size_t', 'int64_t', 'uint32_t', 'int32_t'):
+                die('std::%s of %s' % (rn, ct), e)
+            return 'verif_%s_%s(%s, %s)' % (rn, ct, self.expr(args[0]), self.expr(args[1]))
         if rn in ('max', 'min') and not args:
             # std::numeric_limits<T>::max()/min()
             ct = self.ctype(e)
@@ -1371,7 +1377,14 @@ class Emitter:
                 die('numeric_limits::%s of %s' % (rn, ct), e)
             return '((%s)%s)' % (ct, table[(rn, ct)])
         if rn == 'bit_cast':
-            return '((%s)%s)' % (self.ctype(e), self.paren(args[0]))
+            # pointer <-> integer bit_cast goes through the stub address model (CBMC's own pointer encoding keeps the
+            # object id in the top bits, which the lock's pointer/flag masks would cut off)
+            to, frm = self.ctype(e), self.ctype_of_expr(args[0])
+            if to.endswith('*') and not frm.endswith('*'):
+                return 'verif_u64_to_%s(%s)' % (cident(to[:-1].strip()), self.expr(args[0]))
+            if frm.endswith('*') and not to.endswith('*'):
+                return 'verif_ptr_to_u64(%s)' % self.expr(args[0])
+            return '((%s)%s)' % (to, self.paren(args[0]))
         if rn in LIB_FUNCS:
             stub = LIB_FUNCS[rn]
             if rn in ('pow', 'log'):
